@@ -77,6 +77,19 @@ Fixpoint seq_lines (fix_d8 : bool) (st : style) (lines : list str) : list tree :
   | l :: r => let '(st', rr) := decode_line fix_d8 st l in ofRes ofText rr :: seq_lines fix_d8 st' r
   end.
 
+(* two proxies (sys.stdout, sys.stderr) on one console, as installed by Live._enable_redirect_io:
+   history items [0, k, text] | [1, k]; -> per operation the console.print calls it made *)
+Fixpoint live_run (fix_d8 : bool) (s0 s1 : pstate) (h : list tree) : list tree * pstate * pstate :=
+  match h with
+  | [] => ([], s0, s1)
+  | t :: r =>
+      let k := tZ (tNth t 1) in
+      let o := if tZ (tNth t 0) =? 0 then Write (tStr (tNth t 2)) else Flush in
+      let '(st', outs) := proxy_step fix_d8 facts_gen (if k =? 0 then s0 else s1) o in
+      let '(rest, a, b) := live_run fix_d8 (if k =? 0 then st' else s0) (if k =? 0 then s1 else st') r in
+      (ofList ofOut outs :: rest, a, b)
+  end.
+
 Definition LINK_ID : str := [48].
 
 Definition ops : list (string * (tree -> tree)) := [
@@ -100,6 +113,9 @@ Definition ops : list (string * (tree -> tree)) := [
   ("proxy.run", fun t =>
      let '(st, outs) := proxy_run (tB (tNth t 0)) facts_gen p_init (tList tOp (tNth t 1)) in
      L [ofList ofOut outs; ofStr (pending st)]);
+  ("proxy.live", fun t =>
+     let '(outs, a, b) := live_run (tB (tNth t 0)) p_init p_init (tL (tNth t 1)) in
+     L [L outs; ofStr (pending a); ofStr (pending b)]);
   ("proxy.facts", fun _ =>
      L [ofB (f_write_decodes facts_gen); ofKw (f_write_kw facts_gen);
         ofB (f_flush_decodes facts_gen); ofKw (f_flush_kw facts_gen)]);
